@@ -48,14 +48,26 @@ Example required_acyclic_nonvacuous :
   schema_ok [[FSingular 1 (TMsg 1); FOptional 2 (TMsg 0)]; [FSingular 1 (TScalar TYPE_INT32); FRepeated 2 (TMsg 0)]] = true.
 Proof. vm_compute. reflexivity. Qed.
 
-(* ------------------------------------------------------------------ F-10b: generated `string` fields are not validated *)
-(* the codec module the generator selects for a declared `string` is faststr, whose merge accepts any bytes; std String's
-   module rejects the same input *)
-Theorem faststr_accepts_invalid_utf8 :
+(* ------------------------------------------------------------------ F-10b repaired: generated `string` fields hold UTF-8 *)
+(* faststr::merge now validates like string::merge: same outcome on every input *)
+Theorem faststr_merge_is_string_merge :
+  faststr_validates = true /\ forall wt s, merge_scalar MFastStr wt s = merge_scalar MString wt s.
+Proof. split; reflexivity. Qed.
+
+(* whatever the bytes and the wire type: a decoded FastStr / String is valid UTF-8 *)
+Theorem decoded_string_utf8 m wt s v s' : m = MFastStr \/ m = MString -> merge_scalar m wt s = OOk v s' -> utf8_valid (vbytes v) = true.
+Proof.
+  intros Hm H. assert (E : merge_scalar m wt s = string_merge wt s) by (destruct Hm as [-> | ->]; reflexivity).
+  rewrite E in H. unfold string_merge, bind in H. destruct (bytes_merge_one_copy wt s) as [v0 s0|e s0|p]; try discriminate H.
+  destruct (utf8_valid (vbytes v0)) eqn:Eu; [|discriminate H]. inversion H; subst. exact Eu.
+Qed.
+
+(* the witness of the finding, now rejected -- by the module and by a generated message *)
+Theorem faststr_rejects_invalid_utf8 :
   scalar_module TYPE_STRING = Some MFastStr /\
   utf8_valid [xff; xfe] = false /\
-  (exists s, merge_scalar MFastStr LengthDelimited (mkR [x02; xff; xfe] 0) = OOk (VB [xff; xfe]) s) /\
-  (exists s, merge_scalar MString LengthDelimited (mkR [x02; xff; xfe] 0) = OErr PUtf8 s) /\
-  (exists s, msg_decode [[FOptional 1 (TScalar TYPE_STRING)]] 0 (mkR [x0a; x02; xff; xfe] 0)
-             = OOk (VL NMsg [VL NSome [VB [xff; xfe]]]) s).
+  (exists s, merge_scalar MFastStr LengthDelimited (mkR [x02; xff; xfe] 0) = OErr PUtf8 s) /\
+  (exists s, msg_decode [[FOptional 1 (TScalar TYPE_STRING)]] 0 (mkR [x0a; x02; xff; xfe] 0) = OErr PUtf8 s) /\
+  (exists s, msg_decode [[FOptional 1 (TScalar TYPE_STRING)]] 0 (mkR [x0a; x02; xc3; xa9] 0)
+             = OOk (VL NMsg [VL NSome [VB [xc3; xa9]]]) s).
 Proof. repeat split; try (vm_compute; reflexivity); eexists; vm_compute; reflexivity. Qed.
